@@ -58,7 +58,7 @@ def build(tier, seed):
         'bounds': {'alphabet': [-1, 0, 1], 'max_len': L, 'dt': DTS, 'xi': XIS, 'T_over_dt': RATIOS, 'refinement': [2, 8], 'shifts': [1, 3]},
         'required_classes': ['pair-independent', 'split-changes-tail', 'shift-nonzero-response', 'perm-nonidentity',
                              'partition-multiblock', 'refine', 'leading-zero-period', 'consecutive-calls', 'int-period-container', 'tiny-scale', 'object-history', 'record-number-type',
-                             'object-refinement-by-shortest-period', 'big-problem'],
+                             'object-refinement-by-shortest-period', 'big-problem', 'consecutive-spectra-same-size'],
         'assumptions': ['relations are checked between executions of the implementation itself (no reference values needed)',
                         'refinement only where T/(dt/r) <= 2e4 (the domain of C01)'],
     }
@@ -501,6 +501,32 @@ def run_batching(case, r):
                                                   np.array([single[T][j] for T in l2]), 1e-12, 'second of two consecutive calls vs single-period calls')
                                 except Exception as e:
                                     r.fail('batching.consecutive', sub, 'malformed: %s' % e)
+                # ... and for the spectra: a list without a leading 0, then a list of the SAME length with it
+                if size >= 2 and all(T in single and len(single[T]) == 9 for T in subset):
+                    l1 = list(subset)
+                    lz = [0.0] + list(subset[1:])
+                    pga_ = float(np.max(np.abs(a)))
+                    for fnn, fn_, base_j in (('pseudo', sdof.pseudo_response_spectra, 3), ('true', sdof.true_response_spectra, 6)):
+                        sub = {'dt': dt, 'xi': xi, 'a': a.tolist(), 'fn': fnn, 'first_call': [p / dt for p in l1], 'second_call': [p / dt for p in lz]}
+                        r.states += 1
+                        r.transitions += 1
+                        ok1, _ = r.call('batching.consecutive', sub, fn_, a, dt, np.array(l1), xi)
+                        ok2, out2 = r.call('batching.consecutive', sub, fn_, a, dt, np.array(lz), xi)
+                        if ok1 and ok2:
+                            r.cls('consecutive-spectra-same-size')
+                            r.n_cmp += 1
+                            try:
+                                o2 = [np.asarray(x, dtype=float) for x in out2]
+                                good = all(o2[j].shape == (len(lz),) and np.allclose(o2[j][1:], [single[T][base_j + j] for T in lz[1:]], rtol=1e-12, atol=0)
+                                           for j in range(3))
+                                good0 = good and o2[0][0] == 0 and o2[1][0] == 0 and abs(o2[2][0] - pga_) <= 1e-12 * pga_
+                            except Exception:
+                                good = good0 = False
+                            if not good:
+                                r.fail('batching.consecutive', sub, '%s spectra of the second of two same-size calls differ from the single-period results' % fnn, observed=out2)
+                            elif not good0:
+                                r.fail('batching.consecutive', dict(sub, entry='T=0'), '%s spectra: the T = 0 entry of the second of two same-size calls is not (0, 0, PGA)' % fnn,
+                                       observed=[x[0] for x in o2], expected=[0.0, 0.0, pga_])
                 # set partitions of the subset into batches (order inside a batch ascending)
                 for part in partitions(list(subset)):
                     if len(part) > 1:
